@@ -67,6 +67,21 @@ def _norm_builder(mi, fn, idxname, kindname):
     return fn, pre
 
 
+def _discover_builder(mi, kindname, default_builder, default_index):
+    """(builder function name, index dict name) for the registry of `kindname`: the module-level function that stores an object into a
+    module-level dict under a test 'type(obj) is <kindname>' (names as written; the documented ones when nothing is found)."""
+    dicts = {n for n, v in mi.assigns.items() if isinstance(v, ast.Dict) and not v.keys}
+    for fname, f in dict.items(mi.functions):
+        for n in ast.walk(f):
+            if isinstance(n, ast.Assign) and isinstance(n.targets[0], ast.Subscript) and isinstance(n.targets[0].value, ast.Name) \
+                    and n.targets[0].value.id in dicts and isinstance(n.value, ast.Name):
+                fx = facts(guards_of(f, n) or [])
+                v = n.value.id
+                if ('type(%s)' % v, 'is', kindname) in fx or ('type(%s)' % v, '==', kindname) in fx:
+                    return fname, n.targets[0].value.id
+    return default_builder, default_index
+
+
 def _key_eval(e, obj):
     """Evaluate an index key expression over a record."""
     if isinstance(e, ast.Constant):
@@ -107,7 +122,9 @@ def check(run):
     prog.load(LINE)
     prog.link()
     prog.normalise_module(mi, only=('lookup_element', 'lookup_isotope'))
-    prog.normalise_module(mi, only=('_build_element_index', '_build_isotope_index'), propagate=False)
+    BE, IE = _discover_builder(mi, 'Element', '_build_element_index', '_element_index')
+    BI, II = _discover_builder(mi, 'Isotope', '_build_isotope_index', '_isotope_index')
+    prog.normalise_module(mi, only=tuple({BE, BI}), propagate=False)
     run.use_file(PYX)
     run.use_file(PYX[:-3] + 'pxd')
     run.use_file(LINE)
@@ -241,8 +258,8 @@ def check(run):
         run.fail('C19-R2', K + 'Element.__init__|fields', PYX, einit.lineno, 'Element.__init__ stores %s' % fs)
     # ---- R3 index interpretation
     run.describe('C19-R3', 'index keys interpreted over all records: required identifiers present, map to the same object, no collisions; lookups lower-case')
-    for builder, idxname, recs, kindname in (('_build_element_index', '_element_index', elements, 'Element'),
-                                              ('_build_isotope_index', '_isotope_index', isotopes, 'Isotope')):
+    _shared_index = {}
+    for builder, idxname, recs, kindname in ((BE, IE, elements, 'Element'), (BI, II, isotopes, 'Isotope')):
         fn = mi.functions.get(builder)
         if fn is None:
             raise AnalysisError('anchored function vanished: %s' % builder)
@@ -279,7 +296,7 @@ def check(run):
         else:
             run.fail('C19-R3', K + builder + '|invoked', PYX, fn.lineno,
                      '%s is not invoked after the last %s definition (line %d)' % (builder, kindname, last_def))
-        index = {}
+        index = _shared_index.setdefault(idxname, {})       # one dict serving both registries is filled by both
         uninterpreted = set()
         for r in sorted(recs.values(), key=lambda r: r.var):     # dir(module) is sorted by name
             if kindname == 'Isotope' and 'element' not in r:
@@ -322,11 +339,11 @@ def check(run):
     # lookups: interpreted on probe arguments -- every object must be found by its identifiers in any letter case, and every
     # isotope by (its element, its mass number)
     indexes = {}
-    for builder, idxname, recs, kindname in (('_build_element_index', '_element_index', elements, 'Element'),
-                                              ('_build_isotope_index', '_isotope_index', isotopes, 'Isotope')):
+    for builder, idxname, recs, kindname in ((BE, IE, elements, 'Element'), (BI, II, isotopes, 'Isotope')):
         fnb, _pre = _norm_builder(mi, mi.functions[builder], idxname, kindname)
-        kx = [n.targets[0].slice for n in ast.walk(fnb) if isinstance(n, ast.Assign) and isinstance(n.targets[0], ast.Subscript) and norm(n.targets[0].value) == idxname]
-        ix = {}
+        kx = [n.targets[0].slice for n in ast.walk(fnb) if isinstance(n, ast.Assign) and isinstance(n.targets[0], ast.Subscript) and norm(n.targets[0].value) == idxname
+              and (_pre or BE != BI or ('type(obj)', 'is', kindname) in facts(guards_of(fnb, n) or []))]
+        ix = indexes.get(idxname, {})
         _set_locals(fnb)
         for r in sorted(recs.values(), key=lambda r: r.var):
             if kindname == 'Isotope' and 'element' not in r:
@@ -340,8 +357,8 @@ def check(run):
     # module-level lists the builders fill by append (and sort): positional tables the lookups may index
     mlists = {st.targets[0].id for st in mi.tree.body if isinstance(st, ast.Assign) and len(st.targets) == 1 and isinstance(st.targets[0], ast.Name)
               and isinstance(st.value, ast.List) and not st.value.elts}
-    for builder, recs, kindname in (('_build_element_index', elements, 'Element'), ('_build_isotope_index', isotopes, 'Isotope')):
-        fnb, _pre = _norm_builder(mi, mi.functions[builder], '_element_index' if kindname == 'Element' else '_isotope_index', kindname)
+    for builder, recs, kindname in ((BE, elements, 'Element'), (BI, isotopes, 'Isotope')):
+        fnb, _pre = _norm_builder(mi, mi.functions[builder], IE if kindname == 'Element' else II, kindname)
         for n in ast.walk(fnb):
             if isinstance(n, ast.Call) and isinstance(n.func, ast.Attribute) and n.func.attr == 'append' and isinstance(n.func.value, ast.Name) \
                     and n.func.value.id in mlists and len(n.args) == 1 and norm(n.args[0]) == 'obj':
@@ -365,17 +382,19 @@ def check(run):
     # the two registries are distinct objects: one dict under two names merges them (shared keys resolve to whichever was stored last,
     # and an identifier of the other registry is found instead of raising)
     run.subject('C19-R3')
-    shared = [st for st in mi.tree.body if isinstance(st, ast.Assign) and {'_element_index', '_isotope_index'} <= {norm(t) for t in st.targets}]
-    shared += [st for st in mi.tree.body if isinstance(st, ast.Assign) and len(st.targets) == 1 and norm(st.targets[0]) in ('_element_index', '_isotope_index')
-               and norm(st.value) in ('_element_index', '_isotope_index')]
+    shared = [st for st in mi.tree.body if isinstance(st, ast.Assign) and {IE, II} <= {norm(t) for t in st.targets}]
+    shared += [st for st in mi.tree.body if isinstance(st, ast.Assign) and len(st.targets) == 1 and norm(st.targets[0]) in (IE, II)
+               and norm(st.value) in (IE, II)]
+    if IE == II:
+        shared = [st for st in mi.tree.body if isinstance(st, ast.Assign) and any(norm(t) == IE for t in st.targets)] or [mi.functions[BE]]
     if shared:
-        both = sorted(set(indexes['_element_index']) & set(indexes['_isotope_index']))
+        both = sorted(set(indexes[IE]) & set(indexes[II])) if IE != II else []
         run.fail('C19-R3', K + 'indices-aliased', PYX, shared[0].lineno,
                  "_element_index and _isotope_index are one dict (%s): identifiers of one registry are found in the other%s"
                  % (norm(shared[0])[:50], "; the shared key(s) %s resolve to whichever object was stored last" % both[:3] if both else ''))
     else:
         run.ok('C19-R3', 'element and isotope indices are separate objects', 'two module-level dict displays', sample=False)
-    for fname, idxname, recs in (('lookup_element', '_element_index', elements), ('lookup_isotope', '_isotope_index', isotopes)):
+    for fname, idxname, recs in (('lookup_element', IE, elements), ('lookup_isotope', II, isotopes)):
         fn = mi.functions.get(fname)
         if fn is None:
             raise AnalysisError('anchored function vanished: %s' % fname)
